@@ -7,19 +7,78 @@ import ast
 import os
 
 
+def _resolved(expr, fn):
+    """expr with every local name that is assigned exactly once in fn (plain assignment, not a loop / with / augmented target) replaced by
+    the expression assigned to it, nested os.path.join calls flattened and config['k'] written as config.get('k'); None when a name in it
+    is bound more than once"""
+    bound = {}
+    for n in ast.walk(fn):
+        tgts = []
+        if isinstance(n, ast.Assign):
+            tgts = [(t, n.value) for t in n.targets]
+        elif isinstance(n, (ast.AugAssign, ast.AnnAssign)):
+            tgts = [(n.target, None)]
+        elif isinstance(n, (ast.For, ast.comprehension)):
+            tgts = [(n.target, None)]
+        elif isinstance(n, ast.withitem) and n.optional_vars is not None:
+            tgts = [(n.optional_vars, None)]
+        for t, v in tgts:
+            for nm in ast.walk(t):
+                if isinstance(nm, ast.Name) and isinstance(nm.ctx, ast.Store):
+                    bound.setdefault(nm.id, []).append(v if t is nm else None)
+    params = {a.arg for a in fn.args.args}
+    failed = []
+
+    def go(e, depth):
+        if depth > 12:
+            failed.append('depth')
+            return e
+        if isinstance(e, ast.Name):
+            if e.id in params or e.id not in bound:
+                return e
+            if len(bound[e.id]) != 1 or bound[e.id][0] is None:
+                failed.append(e.id)
+                return e
+            return go(bound[e.id][0], depth + 1)
+        if isinstance(e, ast.Subscript) and isinstance(e.value, ast.Name) and isinstance(e.slice, ast.Constant):
+            return ast.parse('%s.get(%r)' % (e.value.id, e.slice.value), mode='eval').body
+        if isinstance(e, ast.Call) and ast.unparse(e.func) == 'os.path.join' and not e.keywords:
+            args = []
+            for a in e.args:
+                a2 = go(a, depth + 1)
+                if isinstance(a2, ast.Call) and ast.unparse(a2.func) == 'os.path.join' and not a2.keywords:
+                    args.extend(a2.args)
+                else:
+                    args.append(a2)
+            return ast.Call(func=e.func, args=args, keywords=[])
+        return e
+    out = go(expr, 0)
+    return None if failed else out
+
+
 def only_grammar_txt_is_written(fn, calls):
-    """edit_rules(): exactly one file-system update, open(<name>, 'w'), where <name> is assigned exactly once in the function, from
-    os.path.join(config.get('rules_dir'), config.get('rule'), 'Grammar', 'grammar.txt') (whatever the variable is called)"""
+    """edit_rules(): exactly one file-system update, open(<path>, 'w'), where <path> resolves (through locals assigned once, nested
+    os.path.join flattened) to os.path.join(config.get('rules_dir'), config.get('rule'), 'Grammar', 'grammar.txt').  True / False as
+    decided; None (undecided) when the path expression cannot be resolved to a join of literals and config entries."""
     if len(calls) != 1:
         return False
     c = calls[0]
-    if ast.unparse(c.func) != 'open' or len(c.args) < 2 or not isinstance(c.args[0], ast.Name) or ast.unparse(c.args[1]) != "'w'":
+    if ast.unparse(c.func) != 'open' or not c.args:
         return False
-    if any(k.arg not in ('encoding', 'newline') for k in c.keywords):
+    mode = c.args[1] if len(c.args) > 1 else next((k.value for k in c.keywords if k.arg == 'mode'), None)
+    if not isinstance(mode, ast.Constant):
+        return None
+    if mode.value not in ('w', 'wt'):
         return False
-    name = c.args[0].id
-    assigns = [n for n in ast.walk(fn) if isinstance(n, ast.Assign) and any(isinstance(t, ast.Name) and t.id == name for t in n.targets)]
-    return len(assigns) == 1 and ast.unparse(assigns[0].value) == "os.path.join(config.get('rules_dir'), config.get('rule'), 'Grammar', 'grammar.txt')"
+    if any(k.arg not in ('encoding', 'newline', 'mode') for k in c.keywords):
+        return None
+    path = _resolved(c.args[0], fn)
+    if path is None or not (isinstance(path, ast.Call) and ast.unparse(path.func) == 'os.path.join'):
+        return None
+    parts = [ast.unparse(a) for a in path.args]
+    if not all(isinstance(a, ast.Constant) or ast.unparse(a).startswith('config.get(') for a in path.args):
+        return None
+    return parts == ["config.get('rules_dir')", "config.get('rule')", "'Grammar'", "'grammar.txt'"]
 
 
 def only_a_plain_copytree(fn, calls):
